@@ -2,7 +2,7 @@
    Statements only; proofs live in SMP/. *)
 From Coq Require Import List ZArith Bool.
 From JSL Require Import Base.Res SM.Types SM.Util SM.Handler SM.Step SM.Middleware SM.Inv SM.Example
-  SMP.Reflect SMP.StepInv SMP.Main SMP.Clock SMP.FeasStep.
+  SMP.Reflect SMP.StepInv SMP.Main SMP.Clock SMP.FeasStep SMP.Agv.
 Import ListNotations.
 
 (* Every job is stored exactly once, every stored number is a job (placement_b), each job's location
@@ -52,10 +52,33 @@ Theorem C03_machine_holds_one_partial :
 Proof. intros. eapply reachS_mach_hold_past; eauto. Qed.
 Print Assumptions C03_machine_holds_one_partial.
 
+(* "an AGV holds what the state says it holds": exactly one job while in TRANSIT, none in any other phase
+   (agv_load_b) - after every applied transition, in every reachable state and every micro-state, for every
+   instance, oracle and action sequence; no side condition. *)
+Theorem C03_agv_load_one_transition :
+  forall (sigma : oracle) (i : inst) (x : state) (tr : transition) (x' : state),
+    agv_load_b x = true -> apply_transition sigma i x tr = Ok x' -> agv_load_b x' = true.
+Proof. exact apply_agv_load_b. Qed.
+Print Assumptions C03_agv_load_one_transition.
+
+Theorem C03_agv_load_reachable :
+  forall (sigma : oracle) (i : inst) (fuel : nat) (x0 : state) (joker0 : Z) (ta : bool) (r : result) (m : mw),
+    agv_load_b x0 = true -> reach sigma i fuel x0 joker0 ta r m -> agv_load_b (r_x r) = true.
+Proof. exact reach_agv_load_b. Qed.
+Print Assumptions C03_agv_load_reachable.
+
+Theorem C03_agv_load_micro_states :
+  forall (sigma : oracle) (i : inst) (fuel : nat) (x0 : state) (joker0 : Z) (ta : bool) (r : result) (m : mw)
+         (a : Z) (r' : result) (m' : mw) (lg : mlog),
+    agv_load_b x0 = true -> reach sigma i fuel x0 joker0 ta r m -> mw_step sigma i fuel r m a = MOk r' m' lg ->
+    forall tr y, In (tr, y) lg -> agv_load_b y = true.
+Proof. exact reach_micro_agv_load_b. Qed.
+Print Assumptions C03_agv_load_micro_states.
+
 (* non-vacuity: the compiled initial state of a real instance satisfies the hypothesis, and a
    mid-episode state (after accept, accept, accept, decline, accept) is reachable *)
-Example C03_hypothesis_satisfiable : wfs_b ex_inst ex_state = true.
-Proof. vm_compute. reflexivity. Qed.
+Example C03_hypothesis_satisfiable : wfs_b ex_inst ex_state = true /\ agv_load_b ex_state = true.
+Proof. vm_compute. split; reflexivity. Qed.
 Example C03_reachable_nontrivial :
   exists r m, ex_after [1;1;1;0;1]%Z = Some (r, m) /\ wfs_b ex_inst (r_x r) = true /\ s_now (r_x r) = 1019%Z.
 Proof. vm_compute. eexists; eexists; repeat split. Qed.
